@@ -117,7 +117,7 @@ def _limits():
         pass
 
 
-def run_server(cmd, requests, per_request_timeout=20.0, total_timeout=None):
+def run_server(cmd, requests, per_request_timeout=90.0, total_timeout=None):
     """Feed `requests` (list of lines) to a protocol server, one answer per request.  If the
     server dies or stalls on a request, that request is answered `CRASH <why>` / `TIMEOUT` and
     the rest are retried in a new process."""
@@ -127,7 +127,7 @@ def run_server(cmd, requests, per_request_timeout=20.0, total_timeout=None):
         batch = requests[start:]
         inp = "\n".join(batch) + "\n"
         t0 = time.time()
-        budget = total_timeout or max(60.0, per_request_timeout + 0.01 * len(batch))
+        budget = total_timeout or max(600.0, per_request_timeout + 0.05 * len(batch))
         try:
             p = subprocess.run(cmd, input=inp, stdout=subprocess.PIPE, stderr=subprocess.PIPE,
                                text=True, timeout=budget, preexec_fn=_limits)
@@ -251,6 +251,21 @@ def audit_axioms(module, names):
     return res
 
 
+def import_closure(module_file):
+    """all files of the Nlmodel library the given file imports, directly or not (the file itself included)"""
+    seen, todo = [], [module_file]
+    while todo:
+        f = todo.pop()
+        if f in seen or not os.path.exists(os.path.join(LEAN, f)):
+            continue
+        seen.append(f)
+        for line in open(os.path.join(LEAN, f), encoding="utf-8"):
+            m = re.match(r"^import\s+(Nlmodel\.\S+)", line)
+            if m:
+                todo.append(m.group(1).replace(".", "/") + ".lean")
+    return seen
+
+
 def check_proofs(prop_module, files):
     """build the property's proof module, audit axioms and scan for forbidden constructs.
     Returns dict(obligations, discharged, axioms, problems)."""
@@ -273,7 +288,7 @@ def check_proofs(prop_module, files):
             problems.append("%s depends on %s" % (n, ax[n]))
         else:
             discharged += 1
-    hits = scan_forbidden(files)
+    hits = scan_forbidden(sorted(set(files) | set(import_closure(module_file))))
     for h in hits:
         problems.append("forbidden construct: " + h)
     return dict(obligations=len(names), discharged=discharged, axioms=ax, problems=problems, names=names)
